@@ -6,6 +6,20 @@ harness-owned table indexed by the simulation step (vf.tablesim), so one compile
 re-simulated under every trace.  Oracle: own evaluator of finite-trace LTL (strong next, strong
 until) on the slice of the trace from the step the requirement takes effect to the step its
 scenario ends.
+
+Window conventions (read from dynamic_scenarios.rst steps 1a/1e/10, confirmed on the tree by
+logging the table cells read):
+* top level, `maxSteps=L`: the initial scene is checked with the step-0 valuation at generation
+  time, then the monitor is updated in steps 0..L (L+1 positions; the terminating step still
+  runs step 1a) and the final verdict is taken when the simulation stops.
+* `setup` block of a scenario started by `do` in step k: first update in step k itself; last
+  update in the step e in which the scenario stops (its compose block finishes, its parent's
+  `terminate when` fires after the sub-scenario ran in step e, or the simulation ends).
+  (`do Sub() until c` / `for n steps` stops Sub *before* it runs in the last step: not generated,
+  the docs do not say whether that step belongs to the trace.)
+* `require` executed in a compose block in step k: the statement takes effect in step k.
+* `terminate when` is never written inside a scenario that is set up at run time: it is
+  mis-filed as a requirement there (findings/C11-terminate-when-in-subscenario.py).
 """
 
 from __future__ import annotations
@@ -552,8 +566,14 @@ END_MODES = {
 }
 
 
-def program(place, f, variant):
-    return PROGRAMS[place].replace("{F}", PRINTERS[variant](f))
+def program(place, f, variant, ego=True):
+    """`ego=False` leaves the scenario without any object: creating the dynamic proxy of an object
+    is 85 % of the cost of a short simulation and has nothing to do with the requirement."""
+    src = PROGRAMS[place].replace("{F}", PRINTERS[variant](f))
+    if not ego:
+        assert src.count("ego = new Object\n") == 1
+        src = src.replace("        ego = new Object\n", "").replace("ego = new Object\n", "")
+    return src
 
 
 def build_table(tr, k, end, natoms):
@@ -670,7 +690,8 @@ def judge(case, collect=None):
     out.cls("place:" + place, "variant:" + variant, "end:" + end, "class:" + fc,
             "depth:%d" % depth_of(f))
     cell = f"{fc}:{place}"
-    src = program(place, f, variant)
+    src = program(place, f, variant, case.get("ego", True))
+    out.cls("objects:1" if case.get("ego", True) else "objects:0")
     fatoms = atoms_of(f)
     failed = set()
 
@@ -891,12 +912,12 @@ def build_cases(tier, seed):
                       "natoms": 2, "lens": [1]})
         cases.append({"f": f, "variant": "min", "place": "top", "k": 0,
                       "end": rng.choice(["maxsteps", "maxsteps", "stop"]), "natoms": 2,
-                      "lens": lens[1:]})
+                      "lens": lens[1:], "ego": rng.random() < 0.1})
     # B. the other parenthesisations: every formula parsed and compared as a tree, traces sampled
     for f in fs:
         for variant in ("full", "red"):
             if quick:
-                trs = [[rng.randrange(4) for _ in range(rng.randint(1, 4))] for _ in range(10)]
+                trs = [[rng.randrange(4) for _ in range(rng.randint(1, 4))] for _ in range(20)]
                 cases.append({"f": f, "variant": variant, "place": "top", "k": 0, "end": "stop",
                               "natoms": 2, "traces": trs})
             else:
@@ -904,14 +925,15 @@ def build_cases(tier, seed):
                               "natoms": 2, "lens": [1, 2, 3]})
     # C. the other placements
     for place in ("setup", "dyn-sub", "dyn-top"):
-        sub = rng.sample(fs, len(fs) // 10) if quick else fs
+        sub = rng.sample(fs, len(fs) // 4) if quick else fs
         for f in sub:
             k = rng.choice([0, 1, 1, 2])
             cases.append({"f": f, "variant": rng.choice(["min", "min", "full", "red"]),
                           "place": place, "k": k, "end": rng.choice(END_MODES[place]),
-                          "natoms": 2, "lens": [1, 2, 3] if quick else [1, 2, 3, 4]})
+                          "natoms": 2, "lens": [1, 2, 3] if quick else [1, 2, 3, 4],
+                          "ego": rng.random() < 0.5})
     # D. deeper formulas, three atoms, longer traces (seeded sample)
-    nd = 250 if quick else 12000
+    nd = 600 if quick else 12000
     seen = set()
     while len(seen) < nd:
         f = random_formula(rng, 3, rng.choice([2, 3, 3]))
@@ -925,7 +947,8 @@ def build_cases(tier, seed):
                for _ in range(40 if quick else 80)]
         cases.append({"f": f, "variant": rng.choice(["min", "min", "full", "red"]), "place": place,
                       "k": rng.choice([0, 1, 2]) if place != "top" else 0,
-                      "end": rng.choice(END_MODES[place]), "natoms": natoms, "traces": trs})
+                      "end": rng.choice(END_MODES[place]), "natoms": natoms, "traces": trs,
+                      "ego": rng.random() < 0.5})
     return cases
 
 
